@@ -33,6 +33,51 @@ def _edges_keep(body):
     return body
 
 
+MIX = "{α : Type} [Add α] [Sub α] [LT α] [LE α] [DecidableLT α] [DecidableLE α] [Inhabited α] [OfNat α 0]"
+
+_HMIN_WARN = ("if h_min < h_min_lower_bound:\n    estr = 'Integration step below %.e (s=%.f). Please check your ODE.' % (h_min_lower_bound, h_min)\n"
+              "    logging.warning(estr)\n    if raise_errors:\n        raise Exception(estr)")
+_IDX_OF_SHAPE = "idx = [str(sym) for sym in list(self._system_of_shapes.x_)].index(str(shape.symbol))"
+_IDX_OF_SYM = "idx = [str(sym_) for sym_ in list(self._system_of_shapes.x_)].index(sym)"
+
+
+def _main_loop(body):
+    """integrate_ode: the statements of the `try:` block from `h_min = np.inf` up to and including the main `while`"""
+    for s in body:
+        if isinstance(s, ast.Try):
+            out = []
+            for st in s.body:
+                if ast.unparse(st).startswith("time_start ="):
+                    continue
+                out.append(st)
+                if isinstance(st, ast.While):
+                    return out
+    raise ValueError("main loop of integrate_ode not found")
+
+
+def _assembly_slice(body):
+    """generate_propagator_solver: `P_expr = {}`, `update_expr = {}` and the loop over the rows"""
+    out = []
+    for s in body:
+        u = ast.unparse(s)
+        if u in ("P_expr = {}", "update_expr = {}") or isinstance(s, ast.For):
+            out.append(s)
+    return out
+
+
+_SIMPLIFY_IF = "if not _is_zero(self.b_[row]):\n    update_expr[str(self.x_[row])] = _custom_simplify_expr(update_expr[str(self.x_[row])])"
+
+
+def _only_for(body):
+    return [s for s in body if isinstance(s, ast.For)]
+
+
+_FF_FILL = ("for i in range(order):\n    substitute = i + t_\n    Y[i] = derivatives[order].subs(Config().input_time_symbol, substitute)\n"
+            "    for j in range(order):\n        X[i, j] = derivatives[j].subs(Config().input_time_symbol, substitute)")
+_FF_RESID = "for k in range(order):\n    diff_rhs_lhs -= derivative_factors[k] * derivatives[k]"
+_FF_DEFAULT_SYMS = "if all_variable_symbols is None:\n    all_variable_symbols = []"
+
+
 GROUPS = {
     # ---------------------------------------------------------------------------------- C15
     "PySpikes": {
@@ -50,6 +95,31 @@ GROUPS = {
                 call_map={"max": "Py.max"},
                 doc="the exponential draw `-math.log(1. - random.random()) / rate` is read from the stream `isis` "
                     "(one element per loop iteration; `none` when the stream or the fuel runs out)")),
+        ],
+    },
+    "PySpikesJson": {
+        "imports": ["OdeVerif.Model.PyPrelude", "OdeVerif.Model.Spikes"],
+        "file": "odetoolbox/spike_generator.py",
+        "functions": [
+            (("SpikeGenerator", "spike_times_from_json"), Spec(
+                name="spikeTimesFromJson", header="{α : Type} [LE α] [DecidableLE α]",
+                params=[("marker", "List Char"), ("sim_time", "α"), ("stimuli", "List (Spikes.Stim α)")],
+                types={"spike_times": "Spikes.Trains α", "sym": "List Char", "spikes": "List α", "stimulus": "Spikes.Stim α",
+                       "for:stimuli": "Spikes.Stim α", "for:dict.fromkeys(stimulus['variables'])": "List Char"},
+                expr_map={"{}": "[]", "dict.fromkeys(stimulus['variables'])": "(Spikes.distinct stimulus.variables)",
+                          "sym.replace(\"'\", Config().differential_order_symbol)": "(Spikes.rewritePrimes marker sym)",
+                          "not sym in spike_times.keys()": "((Spikes.lookup spike_times sym).isNone = true)",
+                          "stimulus['type']": "stimulus.type",
+                          "SpikeGenerator._generate_homogeneous_poisson_spikes(T=sim_time, rate=float(stimulus['rate']))": "(stimulus.poissonTrain sym)",
+                          "SpikeGenerator._generate_regular_spikes(T=sim_time, rate=float(stimulus['rate']))": "(stimulus.regularTrain sym)"},
+                call_map={"np.sort": "Spikes.sortAsc"},
+                index_map={"spike_times": "(Spikes.lookup spike_times {k}).getD []"},
+                index_set={"spike_times": ("spike_times", "(Spikes.setKey {old} {k} {v})")},
+                stmt_map={"str_io = io.StringIO(stimulus['list'])": [],
+                          "spikes = np.loadtxt(str_io, ndmin=1)": [("spikes", "stimulus.listRaw")]},
+                result_type="Spikes.Trains α",
+                doc="the dict `spike_times` is an association list in insertion order; the trains returned by the two generator calls and the "
+                    "numbers `np.loadtxt` parsed are fields of the stimulus record; the filter `<= sim_time` and the sort are translated")),
         ],
     },
     # ---------------------------------------------------------------------------------- C12
@@ -87,6 +157,150 @@ GROUPS = {
                     "the final `np.argsort` re-ordering is a NumPy contract and stays in the hand model (`sortByTime`)")),
         ],
     },
+    # ---------------------------------------------------------------------------------- C01 / C08
+    "PyPropagator": {
+        "imports": ["OdeVerif.Model.PyPrelude", "OdeVerif.Model.Propagator"],
+        "file": "odetoolbox/system_of_shapes.py",
+        "functions": [
+            (("SystemOfShapes", "generate_propagator_solver"), Spec(
+                name="propagatorSolver", header="{n : Nat} {K : Type} [DecidableEq K] [OfNat K 0] [Neg K] [Div K]",
+                params=[("A", "Fin n → Fin n → K"), ("b", "Fin n → K"), ("cnz", "Fin n → Bool"), ("order", "Fin n → Nat"), ("Pnz", "Fin n → Fin n → Bool")],
+                types={"P_expr": "List (Fin n × Fin n)", "update_expr": "List (Fin n × List (Propagator.Term n K))",
+                       "update_expr_terms": "List (Propagator.Term n K)", "particular_solution": "K", "row": "Fin n", "col": "Fin n",
+                       "for:range(P_sym.shape[0])": "Fin n", "for:range(P_sym.shape[1])": "Fin n"},
+                expr_map={"{}": "[]", "range(P_sym.shape[0])": "(List.finRange n)", "range(P_sym.shape[1])": "(List.finRange n)",
+                          "not _is_zero(self.c_[row])": "(cnz row = true)", "not _is_zero(self.b_[row])": "(b row ≠ 0)",
+                          "not _is_zero(self.b_[col])": "(b col ≠ 0)", "self.shape_order_from_system_matrix(row)": "(order row)",
+                          "not _is_zero(P[row, col])": "(Pnz row col = true)", "_is_zero(self.A_[row, row])": "(A row row = 0)",
+                          "-self.b_[row] / self.A_[row, row]": "(-(b row) / (A row row))",
+                          "sym_str + ' * ' + str(self.x_[col])": "(Propagator.Term.px row col)",
+                          "Config().output_timestep_symbol + ' * (' + str(self.b_[row]) + ')'": "(Propagator.Term.stepB (b row))",
+                          "'-' + sym_str + ' * ' + str(self.x_[row])": "(Propagator.Term.negPx row)",
+                          "sym_str + ' * (' + str(self.x_[row]) + ' - (' + str(particular_solution) + '))' + ' + (' + str(particular_solution) + ')'":
+                              "(Propagator.Term.affine row particular_solution)"},
+                stmt_map={"sym_str = '__P__{}__{}'.format(str(self.x_[row]), str(self.x_[col]))": [],
+                          "sym_str = '__P__{}__{}'.format(str(self.x_[row]), str(self.x_[row]))": [],
+                          "P_sym[row, col] = sympy.parsing.sympy_parser.parse_expr(sym_str, global_dict=Shape._sympy_globals)": [],
+                          "P_expr[sym_str] = P[row, col]": [("P_expr", "(P_expr ++ [(row, col)])")],
+                          "update_expr[str(self.x_[row])] = ' + '.join(update_expr_terms)": [("update_expr", "(update_expr ++ [(row, update_expr_terms)])")],
+                          "update_expr[str(self.x_[row])] = sympy.parsing.sympy_parser.parse_expr(update_expr[str(self.x_[row])], global_dict=Shape._sympy_globals)": [],
+                          _SIMPLIFY_IF: [],
+                          "logging.info('update_expr[' + str(self.x_[row]) + '] = ' + str(update_expr[str(self.x_[row])]))": []},
+                raise_map={"nonlinear part should be zero": "(Propagator.AsmErr.nonlinear row.val)",
+                           "higher-order inhomogeneous ODEs are not supported": "(Propagator.AsmErr.higherOrderInhom row.val)",
+                           "depends on the inhomogeneous ODE": "(Propagator.AsmErr.dependsOnInhom row.val col.val)"},
+                error_type="Propagator.AsmErr", body_filter=_assembly_slice, end_return="(P_expr, update_expr)",
+                result_type="List (Fin n × Fin n) × List (Fin n × List (Propagator.Term n K))",
+                doc="the assembly loop. Entries of `A`, `b` are values of a type `K`; `_is_zero` tests are `= 0` (for `c` and `P`: the Boolean patterns "
+                    "`cnz`, `Pnz`); the four string concatenations appended to `update_expr_terms` are the constructors of `Propagator.Term` (an edit "
+                    "of any of these strings makes the translation fail); `P_expr` collects the (row, col) pairs whose propagator symbol is defined; "
+                    "re-parsing and `_custom_simplify_expr` of the joined string are denotation-preserving contracts (dropped)")),
+        ],
+    },
+    # ---------------------------------------------------------------------------------- C10
+    "PyJacobian": {
+        "imports": ["OdeVerif.Model.PyPrelude", "OdeVerif.Model.Shapes"],
+        "file": "odetoolbox/system_of_shapes.py",
+        "functions": [
+            (("SystemOfShapes", "get_jacobian_matrix"), Spec(
+                name="jacobianMatrix", header="{K : Type} [Add K] [Mul K] [OfNat K 0]",
+                params=[("diff", "K → Nat → K"), ("A", "List (List K)"), ("c", "List K"), ("x", "List K")],
+                types={"J": "List ((Nat × Nat) × K)", "expr": "K", "N": "Nat", "i": "Nat", "j": "Nat", "sym": "Nat", "sym2": "Nat", "v": "K", "sym_v": "K",
+                       "for:enumerate(self.x_)": "(Nat × Nat)", "for:zip(self.A_[i, :], self.x_)": "(K × K)"},
+                expr_map={"len(self.x_)": "x.length", "sympy.zeros(N, N)": "[]", "enumerate(self.x_)": "(Py.enumerateRange x.length)",
+                          "self.c_[i]": "(c.getD i 0)", "zip(self.A_[i, :], self.x_)": "(List.zip (A.getD i []) x)"},
+                call_map={"sympy.diff": "diff"},
+                index_set={"J": ("J", "({old} ++ [({k}, {v})])")},
+                result_type="List ((Nat × Nat) × K)",
+                doc="entries of `A`, `c` and the state variables are elements of an arbitrary structure `K` with + and * (symbolic expressions); "
+                    "`sympy.diff(expr, x_j)` is `diff expr j`; `J` is the list of assignments `J[i, j] = ...` in the order they are made")),
+        ],
+    },
+    # ---------------------------------------------------------------------------------- C05
+    "PyFromFunction": {
+        "imports": ["OdeVerif.Model.PyPrelude", "OdeVerif.Model.FromFunction"],
+        "file": "odetoolbox/shapes.py",
+        "functions": [
+            (("Shape", "from_function"), Spec(
+                name="fromFunction", header="", params=[("o", "FromFunction.Oracle"), ("max_t", "Nat"), ("max_order", "Nat")],
+                types={"t_val": "Option Nat", "order": "Nat", "found_ode": "Bool", "invertible": "Bool", "t_": "Nat",
+                       "for:range(0, max_t)": "Nat", "for:range(1, max_t)": "Nat"},
+                expr_map={"None": "none", "range(0, max_t)": "(List.range max_t)", "range(1, max_t)": "(List.range' 1 (max_t - 1))",
+                          "not _is_zero(definition.subs(Config().input_time_symbol, t_))": "(o.nonzeroAt t_ = true)",
+                          "t_val is None": "(t_val.isNone = true)",
+                          "not _is_zero(sympy.det(X))": "(o.invertibleAt order t_ = true)",
+                          "_is_zero(sympy.simplify(diff_rhs_lhs))": "(o.verifies order = true)",
+                          "not found_ode": "(found_ode = false)", "not invertible": "(invertible = false)",
+                          "cls(sympy.Symbol(symbol), order, initial_values, derivative_factors)": "order"},
+                stmt_map={_FF_DEFAULT_SYMS: [], "all_variable_symbols_dict = {str(el): el for el in all_variable_symbols}": [],
+                          "definition = sympy.parsing.sympy_parser.parse_expr(definition, global_dict=Shape._sympy_globals, local_dict=all_variable_symbols_dict)": [],
+                          "derivatives = [definition, sympy.diff(definition, Config().input_time_symbol)]": [],
+                          "t_val = t_": [("t_val", "some t_")],
+                          "msg = 'Cannot find t for which shape function is unequal to zero'": [],
+                          "derivative_factors = [(1 / derivatives[0] * derivatives[1]).subs(Config().input_time_symbol, t_val)]": [],
+                          "diff_rhs_lhs = derivatives[1] - derivative_factors[0] * derivatives[0]": [],
+                          "found_ode = _is_zero(diff_rhs_lhs)": [("found_ode", "o.order1Verifies")],
+                          "derivatives.append(sympy.diff(derivatives[-1], Config().input_time_symbol))": [],
+                          "X = sympy.zeros(order)": [], "Y = sympy.zeros(order, 1)": [], _FF_FILL: [],
+                          "derivative_factors = sympy.simplify(X.inv() * Y)": [], "diff_rhs_lhs = 0": [], _FF_RESID: [],
+                          "diff_rhs_lhs += derivatives[order]": [],
+                          "initial_values = {symbol + derivative_order * \"'\": x.subs(Config().input_time_symbol, 0) for derivative_order, x in enumerate(derivatives[:-1])}": []},
+                drop_calls=["logging.info", "logging.debug"],
+                raise_map={"raise Exception(msg)": "FromFunction.Err.noNonzeroSample",
+                           "Shape does not satisfy any ODE of order <=": "FromFunction.Err.noOde"},
+                error_type="FromFunction.Err", fuel_error="FromFunction.Err.noOde", result_type="Nat",
+                doc="the control flow of the order search; every SymPy step is an oracle answer (`o.nonzeroAt t`, `o.order1Verifies`, "
+                    "`o.invertibleAt order t`, `o.verifies order`), the statements that only compute SymPy objects are dropped verbatim (an edit of any of "
+                    "them makes the translation fail); the value returned is the order of the shape that is constructed")),
+        ],
+    },
+    # ---------------------------------------------------------------------------------- C13
+    "PyMixed": {
+        "imports": ["OdeVerif.Model.PyPrelude", "OdeVerif.Model.MixedIntegrator", "OdeVerif.Model.AnalyticIntegrator"],
+        "file": "odetoolbox/mixed_integrator.py",
+        "functions": [
+            (("MixedIntegrator", "integrate_ode"), Spec(
+                name="integrateOde", header=MIX,
+                params=[("c", "MI.Cfg α"), ("inf", "α"), ("debug", "Bool"), ("hasAnalytic", "Bool"), ("y", "List α"), ("t_log", "List α"),
+                        ("h_log", "List α"), ("y_closed", "List (List α)"), ("upper_bound_crossed", "Bool"), ("ai_log", "List (AI.Op α)")],
+                types={"h_min": "α", "h_sum": "α", "n_timesteps_taken": "Nat", "t": "α", "idx_next_spike": "Nat", "t_target": "α",
+                       "syms_next_spike": "List Nat", "t_next_spike": "α", "t_target_requested": "α", "h_requested": "α", "h_suggested": "α",
+                       "y_prev": "List α", "r__": "(α × α × List α)", "idx": "Nat", "upper_bound_numeric": "α", "lower_bound_numeric": "α",
+                       "for:self._shapes": "MI.ShapeB α", "for:syms_next_spike": "Nat", "shape": "MI.ShapeB α", "sym": "Nat"},
+                predeclare=[("t_target", "0"), ("syms_next_spike", "[]"), ("t_next_spike", "0")],
+                try_passthrough=True,
+                expr_map={"self.sim_time": "c.simTime", "self.max_step_size": "c.maxStep", "self.alias_spikes": "c.aliasSpikes",
+                          "len(all_spike_times)": "c.spikes.length", "np.inf": "inf", "self._shapes": "(MI.shapeBounds c)",
+                          "not self.analytic_integrator is None": "(hasAnalytic = true)",
+                          "not shape.upper_bound is None": "(shape.ub.isSome = true)", "not shape.lower_bound is None": "(shape.lb.isSome = true)",
+                          "initial_values[shape.symbol]": "(MI.getY c.y0 shape.idx)",
+                          "sym in [str(sym_) for sym_ in self._system_of_shapes.x_]": "(sym < y.length)",
+                          "float(self._system_of_shapes.get_initial_value(sym).evalf(subs=self._locals))": "(MI.getY c.inc sym)"},
+                call_map={"min": "MI.pyMin"},
+                index_map={"all_spike_times": "MI.spikeTimeAt c {k}", "all_spike_times_sym": "MI.spikeSymsAt c {k}", "y": "MI.getY y {k}"},
+                index_set={"y": ("y", "({old}.set {k} {v})")},
+                stmt_map={"self.analytic_integrator.disable_cache_update()": [("ai_log", "(ai_log ++ [AI.Op.disableUpdate])")],
+                          "self.analytic_integrator.enable_cache_update()": [("ai_log", "(ai_log ++ [AI.Op.enableUpdate])")],
+                          "self.analytic_integrator.get_value(t)": [("ai_log", "(ai_log ++ [AI.Op.get t])")],
+                          "self._locals.update(self.analytic_integrator.get_value(t))": [("ai_log", "(ai_log ++ [AI.Op.get t])")],
+                          "self._locals.update({str(sym): y[i] for i, sym in enumerate(self._system_of_shapes.x_)})": [],
+                          "t, h_suggested, y = evolve.apply(t, t_target_requested, h_requested, y)":
+                              [("r__", "c.apply t t_target_requested h_requested y"), ("y_prev", "y"), ("t", "r__.1"), ("h_suggested", "r__.2.1"), ("y", "r__.2.2")],
+                          "y_log.append(y)": [("y_closed", "(y_closed ++ [y_prev])")],
+                          _HMIN_WARN: [],
+                          _IDX_OF_SHAPE: [("idx", "shape.idx")], _IDX_OF_SYM: [("idx", "sym")],
+                          "upper_bound_numeric = float(shape.upper_bound.evalf(subs=self._locals))": [("upper_bound_numeric", "MI.optVal shape.ub")],
+                          "lower_bound_numeric = float(shape.lower_bound.evalf(subs=self._locals))": [("lower_bound_numeric", "MI.optVal shape.lb")]},
+                body_filter=_main_loop,
+                end_return="(t, y, idx_next_spike, t_log, y_closed, h_log, upper_bound_crossed, h_min, h_sum, n_timesteps_taken, ai_log)",
+                result_type="(α × List α × Nat × List α × List (List α) × List α × Bool × α × α × Nat × List (AI.Op α))",
+                doc="the main loop (`h_min = np.inf` ... end of `while t < self.sim_time`). `evolve.apply` is `c.apply`; spike symbols are positions of `y` "
+                    "(symbols that are not integrated numerically never enter); `self._shapes` is `MI.shapeBounds c`; the calls on the analytic "
+                    "integrator are recorded as the op list `ai_log`; NumPy aliasing of the logged array: `y_log` is `y_closed ++ [y]` - the entry "
+                    "appended after a step is the array that the bound resets and spike increments then modify in place, so an entry is closed "
+                    "when `evolve.apply` rebinds `y`")),
+        ],
+    },
     # ---------------------------------------------------------------------------------- C03 / C04
     "PyGraph": {
         "imports": ["OdeVerif.Model.PyPrelude", "OdeVerif.Model.Graph"],
@@ -111,6 +325,90 @@ GROUPS = {
                 index_set={"node_is_lin": ("node_is_lin", "(Py.update {old} {k} {v})")},
                 result_type="Nat → Bool",
                 doc="`node_is_lin` (a dict over the state variables) is a function on indices `0 … n-1`; its `.items()` are listed in index order")),
+        ],
+    },
+    "PyDemote": {
+        "imports": ["OdeVerif.Model.PyPrelude", "OdeVerif.Model.Graph"],
+        "file": "odetoolbox/__init__.py",
+        "functions": [
+            (("_find_analytically_solvable_equations",), Spec(
+                name="demote", header="", params=[("s", "Graph.Sys"), ("node_is_analytically_solvable", "Nat → Bool")],
+                types={"for:range(len(shape_sys.x_))": "Nat", "i": "Nat", "j": "Nat"},
+                expr_map={"range(len(shape_sys.x_))": "(List.range s.n)",
+                          "not _is_zero(shape_sys.b_[i])": "(s.bnz i = true)",
+                          "shape_sys.shape_order_from_system_matrix(i)": "(Graph.sccSize s i)",
+                          "shape_sys.x_[i] in shape_sys.get_connected_symbols(i)": "True",
+                          "not i == j": "(¬ i = j)",
+                          "not _is_zero(shape_sys.A_[i, j])": "(s.anz i j = true)",
+                          "not _is_zero(shape_sys.b_[_find_in_matrix(shape_sys.x_, shape_sys.x_[j])])": "(s.bnz j = true)",
+                          "shape_sys.x_[i]": "i"},
+                index_set={"node_is_analytically_solvable": ("node_is_analytically_solvable", "(Py.update {old} {k} {v})")},
+                body_filter=_only_for, end_return="node_is_analytically_solvable", result_type="Nat → Bool",
+                doc="the two demotion rules (the loop over i, j). State variables are positions of `x`; `shape_order_from_system_matrix(i)` is the size "
+                    "of the strongly connected component (`Graph.sccSize`, SciPy contract); a variable is always among its own connected symbols; "
+                    "`_find_in_matrix(x, x[j])` is `j` (the entries of `x` are distinct)")),
+        ],
+    },
+    # ---------------------------------------------------------------------------------- C09
+    "PyFromJson": {
+        "imports": ["OdeVerif.Model.PyPrelude", "OdeVerif.Model.Validate"],
+        "file": "odetoolbox/shapes.py",
+        "functions": [
+            (("Shape", "_parse_defining_expression"), Spec(
+                name="parseDefiningExpression", header="", params=[("s", "Validate.Str")],
+                types={"lhs": "Validate.Str", "lhs_": "List Validate.Str", "symbol_match": "Option Validate.Str", "symbol": "Validate.Str", "order": "Nat"},
+                expr_map={"re.findall('\\\\S+', lhs)": "(Validate.tokens lhs)", "re.search('[a-zA-Z_][a-zA-Z0-9_]*', s)": "(Validate.firstIdent s)",
+                          "symbol_match is None": "(symbol_match.isNone = true)", "symbol_match.group()": "(symbol_match.getD [])",
+                          "len(re.findall(\"'\", lhs))": "(Validate.countChar '\\'' lhs)", "(symbol, order, rhs)": "(symbol, order)"},
+                call_map={"len": "List.length"},
+                index_map={"lhs_": "lhs_.headD []"},
+                stmt_map={"lhs, rhs = s.split('=')": [("lhs", "(Validate.splitEq s).1")], "rhs = rhs.strip()": []},
+                raise_map={"Error while parsing expression": "Validate.Kind.lhsTokens", "Error while parsing symbol name": "Validate.Kind.noSymbol"},
+                error_type="Validate.Kind", result_type="Validate.Str × Nat",
+                doc="strings are character lists; `s.split('=')` (exactly one '=', checked by the caller) is `Validate.splitEq`, `re.findall(r'\\S+', .)` is "
+                    "`Validate.tokens`, `re.search(identifier, .)` is `Validate.firstIdent`, counting primes is `Validate.countChar`; `lhs_[0]` is the head; the "
+                    "right-hand side is not part of the structural check and is dropped from the result")),
+            (("Shape", "from_json"), Spec(
+                name="fromJson", header="", params=[("e", "Validate.Entry")],
+                types={"symbol": "Validate.Str", "order": "Nat", "initial_val_specified": "List Bool", "symbol_match": "Option Validate.Str",
+                       "iv_symbol": "Validate.Str", "iv_order": "Nat", "iv_lhs": "Validate.Str", "iv_rhs": "Validate.Str",
+                       "for:indict['initial_values'].items()": "(Validate.Str × Validate.Str)"},
+                expr_map={"not 'expression' in indict": "(e.expression.isNone = true)",
+                          "not indict['expression'].count('=') == 1": "(¬ Validate.countChar '=' (e.expression.getD []) = 1)",
+                          "not 'initial_value' in indict.keys()": "(e.initialValue.isNone = true)",
+                          "not 'initial_values' in indict.keys()": "(e.initialValues.isNone = true)",
+                          "'initial_value' in indict.keys()": "(e.initialValue.isSome = true)",
+                          "'initial_values' in indict.keys()": "(e.initialValues.isSome = true)",
+                          "len(indict['initial_values'])": "(e.initialValues.getD []).length",
+                          "[False] * order": "(List.replicate order false)", "indict['initial_values'].items()": "(e.initialValues.getD [])",
+                          "re.search('[a-zA-Z_][a-zA-Z0-9_]*', iv_lhs)": "(Validate.firstIdent iv_lhs)", "symbol_match is None": "(symbol_match.isNone = true)",
+                          "symbol_match.group()": "(symbol_match.getD [])", "len(re.findall(\"'\", iv_lhs))": "(Validate.countChar '\\'' iv_lhs)",
+                          "not all(initial_val_specified)": "(initial_val_specified.all id = false)",
+                          "Shape.from_function(symbol, rhs)": "(symbol, order)",
+                          "Shape.from_ode(symbol, rhs, initial_values, all_variable_symbols=all_variable_symbols, lower_bound=lower_bound, upper_bound=upper_bound, parameters=parameters)": "(symbol, order)"},
+                index_map={"initial_val_specified": "initial_val_specified.getD {k} false = true"},
+                index_set={"initial_val_specified": ("initial_val_specified", "({old}.set {k} {v})")},
+                bind_map={"symbol, order, rhs = Shape._parse_defining_expression(indict['expression'])":
+                          ("(symbol, order)", "parseDefiningExpression (e.expression.getD [])")},
+                stmt_map={"initial_values = {}": [], "initial_values[symbol] = indict['initial_value']": [],
+                          "initial_values[iv_symbol + iv_order * \"'\"] = iv_rhs": [],
+                          "lower_bound = None": [], "upper_bound = None": [],
+                          "if 'lower_bound' in indict.keys():\n    lower_bound = indict['lower_bound']": [],
+                          "if 'upper_bound' in indict.keys():\n    upper_bound = indict['upper_bound']": []},
+                raise_map={"No `expression` keyword": "Validate.Kind.noExpression", "Expecting exactly one": "Validate.Kind.eqCount",
+                           "No initial values specified": "Validate.Kind.noInitialValues",
+                           "cannot be specified simultaneously": "Validate.Kind.bothSpellings",
+                           "Single initial value specified": "Validate.Kind.singleNotFirstOrder",
+                           "Wrong number of initial values": "Validate.Kind.wrongNumber",
+                           "Error trying to parse initial value variable symbol": "Validate.Kind.ivNoSymbol",
+                           "does not match equation variable symbol": "Validate.Kind.ivOtherVariable",
+                           "exceeds that of overall equation order": "Validate.Kind.ivOrderTooHigh",
+                           "specified more than once": "Validate.Kind.ivDuplicate",
+                           "Initial value not specified for all differential orders": "Validate.Kind.ivMissing"},
+                error_type="Validate.Kind", result_type="Validate.Str × Nat",
+                doc="the structural checks of one `dynamics` entry, in source order; every `raise MalformedInputException` is the error kind named after "
+                    "its message; `indict` is the record of the three keys the checks look at; the initial values themselves, the bounds and the "
+                    "construction of the shape (`from_function` / `from_ode`) are outside: the result is (symbol, order)")),
         ],
     },
     # ---------------------------------------------------------------------------------- C07 / C09
